@@ -224,9 +224,20 @@ end VueJsx
 
 namespace VueJsx
 
+/-- the lines of a comment (every JavaScript line terminator ends a line) -/
+def commentLines (c : List Char) : List (List Char) :=
+  let (cur, done) := c.foldl (fun (acc : List Char × List (List Char)) ch =>
+    if ch == '\n' || ch == '\r' || ch == '\u2028' || ch == '\u2029' then ([], acc.2 ++ [acc.1]) else (acc.1 ++ [ch], acc.2)) ([], [])
+  done ++ [cur]
+
+/-- C15: the `@jsx <name>` annotation of a comment — on ANY line of it (the usual JSDoc layout puts it on a line of its own,
+    after ` * `); the first such line counts -/
+def specPragmaOfComment (c : List Char) : Option (List Char) :=
+  (commentLines c).findSome? Text.pragmaOfComment
+
 def effectivePragma (o : Opts) (env : Env) : Option String :=
   let fromComments := env.comments.foldl (fun (acc : Option String) cs =>
-    match cs.findSome? (fun c => (Text.pragmaOfComment c.toList).map String.ofList) with
+    match cs.findSome? (fun c => (specPragmaOfComment c.toList).map String.ofList) with
     | some p => some p
     | none => acc) none
   -- a name that is not an identifier (or identifiers joined by dots) names no factory: the statement speaks of "that identifier";
